@@ -10,7 +10,14 @@ verus! {
 
 #[verifier::external_body]
 pub struct Str { _p: () }
-impl Str { pub uninterp spec fn bytes(&self) -> Seq<u8>; }
+impl Str {
+    pub uninterp spec fn bytes(&self) -> Seq<u8>;
+    /// str::trim_end_matches(char): SOME prefix of the string (how much is trimmed is not modelled)
+    #[verifier::external_body]
+    pub fn trim_end_matches(&self, c: char) -> (r: &Str)
+        ensures r.bytes().len() <= self.bytes().len(), r.bytes() == self.bytes().subrange(0, r.bytes().len() as int),
+    { unimplemented!() }
+}
 /// R15b: a string literal in the code (content not modelled)
 #[verifier::external_body]
 pub fn vstr_lit(s: &'static str) -> (r: &'static Str) { unimplemented!() }
